@@ -6,6 +6,8 @@
 (* attribute (none, or a literal described by its structure) and an        *)
 (* argument list form.                                                     *)
 (*   lit = [pre, post : BOOLEAN,          text before / after              *)
+(*          esc  : BOOLEAN,               that text is an escaped brace    *)
+(*                                        (`{{` before, `}}` after)        *)
 (*          nph  : 0..2,                  0: text only ("ab", or with      *)
 (*                                        escapes when post: "a{{b}}");   *)
 (*                                        2: a second placeholder `{1}`    *)
